@@ -76,6 +76,10 @@ def forRange {σ : Type} (lo : Nat) : Nat → (Nat → σ → σ) → σ → σ
   | 0, _, s => s
   | c + 1, f, s => f (lo + c) (forRange lo c f s)
 
+/-- the same loop with early exit : `none` is absorbing -/
+def forRangeOpt {σ : Type} (lo cnt : Nat) (f : Nat → σ → Option σ) (s : σ) : Option σ :=
+  forRange lo cnt (fun i so => so.bind (f i)) (some s)
+
 section scalar
 variable [OfNat α 0] [OfNat α 1] [OfNat α 10] [Add α] [Sub α] [Mul α] [Div α] [Neg α]
 variable [LT α] [DecidableRel (fun a b : α => a < b)]
@@ -185,20 +189,15 @@ def luSolve (n : Nat) (eps : α) (a : Mat α) (b : Vec α) : Option (Vec α) :=
 /-- `TinyMatrixSolveBase::back_substitute(m, p, b, eps)` (vector right-hand side) -/
 def tinyBackSubst (n : Nat) (eps : α) (m : Mat α) (p : Perm) (isId : Bool) (b : Vec α) :
     Option (Vec α) :=
-  let xo := forRange 0 n
-    (fun i (xo : Option (Vec α)) =>
-      match xo with
-      | none => none
-      | some x =>
-        let pi := idx isId p i
-        let v := sumTo (fun j => m.get pi j * x.get (idx isId p j)) i
-        if absT (m.get pi i) < eps then none
-        else some (x.set pi ((x.get pi - v) / m.get pi i))) (some b)
-  match xo with
-  | none => none
-  | some x =>
+  (forRangeOpt 0 n
+    (fun i (x : Vec α) =>
+      let pi := idx isId p i
+      let v := sumTo (fun j => m.get pi j * x.get (idx isId p j)) i
+      if absT (m.get pi i) < eps then none
+      else some (x.set pi ((x.get pi - v) / m.get pi i))) b).map
+  (fun x =>
     let b1 := b.set (n - 1) (x.get (idx isId p (n - 1)))
-    some (forRange 0 (n - 1)
+    forRange 0 (n - 1)
       (fun t (b : Vec α) =>
         let i := n - 1 - t
         let pi2 := i - 1
@@ -268,27 +267,26 @@ def tinySolve (n : Nat) (eps : α) (a : Mat α) (b : Vec α) : Option (Vec α) :
 /-- column `k` of a matrix -/
 def Mat.col (b : Mat α) (k : Nat) : Vec α := { get := fun a => b.get a k }
 
-/-- solve for the columns `0..mc-1` of `b` with `solver`, writing each solution column back;
-`none` as soon as one column fails (in the C++ the failure test does not depend on the column) -/
-def solveColumns (mc : Nat) (solver : Vec α → Option (Vec α)) (b : Mat α) : Option (Mat α) :=
-  forRange 0 mc
-    (fun k (r : Option (Mat α)) =>
-      match r with
-      | none => none
-      | some r =>
-        match solver (b.col k) with
-        | none => none
-        | some x => some { get := fun a c => if c = k then x.get a else r.get a c }) (some b)
+/-- overwrite column `k` of `r` with `x` -/
+def Mat.setCol (r : Mat α) (k : Nat) (x : Vec α) : Mat α :=
+  { get := fun a c => if c = k then x.get a else r.get a c }
+
+/-- solve for the right-hand sides `rhs 0 .. rhs (mc-1)` with `solver`, writing solution `k` in
+column `k` of the result (initially `r0`); `none` as soon as one solve fails (in the C++ the failure
+test does not depend on the column) -/
+def solveColumns (mc : Nat) (solver : Vec α → Option (Vec α)) (rhs : Nat → Vec α) (r0 : Mat α) :
+    Option (Mat α) :=
+  forRangeOpt 0 mc (fun k (r : Mat α) => (solver (rhs k)).map (fun x => r.setCol k x)) r0
 
 /-- `TinyMatrixSolve<N>::exe(m, B, eps)` with an `N × M` right-hand side -/
 def tinySolveM (n mc : Nat) (eps : α) (a : Mat α) (b : Mat α) : Option (Mat α) :=
   match n with
-  | 1 => solveColumns mc (solve1M eps a) b
-  | 2 | 3 => solveColumns mc (tinySolve n eps a) b
+  | 1 => solveColumns mc (solve1M eps a) b.col b
+  | 2 | 3 => solveColumns mc (tinySolve n eps a) b.col b
   | _ =>
     match luDecomp n eps a with
     | none => none
-    | some s => solveColumns mc (tinyBackSubst n eps s.m s.p s.isId) b
+    | some s => solveColumns mc (tinyBackSubst n eps s.m s.p s.isId) b.col b
 
 /-- unit vector `e_i` -/
 def unitVec (i : Nat) : Vec α := { get := fun a => if a = i then 1 else 0 }
@@ -299,15 +297,7 @@ code.)  The unpatched code ignores the flag returned by `decomp`; see patches/C0
 def tinyInvert (n : Nat) (eps eps0 : α) (a : Mat α) : Option (Mat α) :=
   match luDecomp n eps a with
   | none => none
-  | some s =>
-    forRange 0 n
-      (fun i (r : Option (Mat α)) =>
-        match r with
-        | none => none
-        | some r =>
-          match tinyBackSubst n eps0 s.m s.p s.isId (unitVec i) with
-          | none => none
-          | some e => some { get := fun a c => if c = i then e.get a else r.get a c }) (some a)
+  | some s => solveColumns n (tinyBackSubst n eps0 s.m s.p s.isId) unitVec a
 
 /-! ### QR (Householder) -/
 
@@ -350,15 +340,12 @@ def tqProduct (n : Nat) (a : Mat α) (beta : Vec α) (v : Vec α) : Vec α :=
 
 /-- `QRDecomp::back_substitute(v, a, d, e)` ; `none` = `QRNullPivot` -/
 def qrBackSubst (n : Nat) (e : α) (a : Mat α) (d : Vec α) (v : Vec α) : Option (Vec α) :=
-  forRange 0 n
-    (fun t (vo : Option (Vec α)) =>
-      match vo with
-      | none => none
-      | some v =>
-        let l := n - 1 - t
-        if absT (d.get l) < e then none
-        else some (v.set l (subFrom (v.get l) (fun j => a.get l j * v.get j) (l + 1) (n - (l + 1)) / d.get l)))
-    (some v)
+  forRangeOpt 0 n
+    (fun t (v : Vec α) =>
+      let l := n - 1 - t
+      if absT (d.get l) < e then none
+      else some (v.set l (subFrom (v.get l) (fun j => a.get l j * v.get j) (l + 1) (n - (l + 1)) / d.get l)))
+    v
 
 /-- solve `A x = b` by QR : `exe`, `tq_product`, `back_substitute` -/
 def qrSolve (sqrt : α → α) (n : Nat) (e : α) (a : Mat α) (b : Vec α) : Option (Vec α) :=
